@@ -4,3 +4,4 @@ import Proofs.Lemmas.OutKept
 import Proofs.C04
 import Proofs.Lemmas.WF
 import Proofs.C03
+import Proofs.Extracted
